@@ -95,7 +95,19 @@ def directed_head():
                 yield "%s ;; run %s ;; rm a 0 ;; run %s" % (cfg, p, p)
 
 
+def directed_partial_over_shuffle():
+    """CachePartial over the consumer of a shuffle, with counted Maps upstream: after some (not the first) of its shard files
+    is removed, the upstream runs again and what it executed must be what the result's scope reports"""
+    rows = "1:1 2:2 3:3 4:4 5:5 6:6 7:7 8:8 9:9"
+    for cfg in ("local CH2", "bm M2 P2 CH128", "bm M1 P3 CH2"):
+        for sh in ("reduce N1 add", "reshuffle N1", "reshard N1 3"):
+            p = "N0=const 3 %s ; N1=mapc N0 inc ; N2=%s ; N3=cachepartial N2 a ; N4=mapc N3 id ; OUT N4" % (rows, sh)
+            yield "%s ;; run %s ;; rm a 1 ;; run %s ;; rm a 2 ;; rm a 1 ;; run %s ;; rm a 0 ;; run %s" % (cfg, p, p, p, p)
+
+
 def gen(r, tier):
+    for c in directed_partial_over_shuffle():
+        yield c
     alld = list(directed())
     if tier == "quick":
         alld = [c for c in alld if r.below(3) == 0]
